@@ -40,7 +40,7 @@ ASSUMPTIONS = [
 ]
 CAP_S = {"quick": 2400, "thorough": 10800}
 LAYOUTS = ("flat", "jagged", "nested3", "optlist", "optrec", "regular", "regvar", "empty")
-EXTRAS = ((), ("charge",), ("charge", "tag"), ("label", "hits"))
+EXTRAS = ((), ("charge",), ("charge", "tag"), ("label", "hits"), ("beta", "mt", "p"), ("qopt",))  # extra fields named like vector properties; an option-typed extra field (missing where the vector is present)
 COORDS = {"x", "y", "rho", "phi", "z", "theta", "eta", "t", "tau"}
 
 
@@ -80,6 +80,11 @@ def build(system, flavor, rows, layout, extras):
             d["charge"] = (-1) ** i * (i + 1)
         if "tag" in extras:
             d["tag"] = 0.5 * i
+        for e in extras:
+            if e == "qopt":
+                d[e] = None if i % 2 else 7 + i
+            elif e not in ("charge", "tag"):
+                d[e] = 100.0 + 3 * i + len(e)
         recs.append(d)
     if layout == "regular":
         n = len(recs) // 2 * 2
@@ -186,6 +191,10 @@ def run_op(res: Result, op, dimA, dimB, tier, mode):
                 if extras == ("charge", "tag") and layout not in ("jagged", "optrec"):
                     continue
                 if extras == ("label", "hits") and layout not in ("jagged", "nested3"):
+                    continue
+                if extras == ("beta", "mt", "p") and layout not in ("jagged", "optrec"):
+                    continue
+                if extras == ("qopt",) and layout not in ("flat", "jagged"):
                     continue
                 arr = build(sa, fa, rows_a, layout, extras)
                 seconds = [None]
